@@ -358,10 +358,12 @@ func (cr *crashRun) judge(img *sim.Disk, p int, j int, cont []BlkSpec, st *Stats
 	must := append([]Blk(nil), acked...)
 	atMost := append([]Blk(nil), invoked...)
 	var contBlks []Blk
-	if curOp < len(cr.ops) {
-		contBlks = append(contBlks, cr.ops[curOp].all...)
-	}
-	contBlks = append(contBlks, MakeBlocks(cont)...)
+	if (p*3+j)%4 != 0 {
+		if curOp < len(cr.ops) {
+			contBlks = append(contBlks, cr.ops[curOp].all...)
+		}
+		contBlks = append(contBlks, MakeBlocks(cont)...)
+	} // else: the resumed session is finalized as it is, without a single put (one crash point in four)
 	secondTorn := cr.everySecondTorn || (p*7+boolInt(torn))%3 == 0
 	for _, b := range contBlks {
 		var perr error
